@@ -184,6 +184,9 @@ class KroneckerProductLinearOperator(LinearOperator):
         return KroneckerProductTriangularLinearOperator(*chol_factors, upper=upper)
 
     def _diagonal(self: Float[LinearOperator, "... M N"]) -> Float[torch.Tensor, "... N"]:
+        if any(linear_op.size(-1) != linear_op.size(-2) for linear_op in self.linear_ops):
+            # The diagonal of a (square) product of non-square factors is not the product of the factors' diagonals
+            return super()._diagonal()
         return _kron_diag(*self.linear_ops)
 
     def _expand_batch(
